@@ -170,6 +170,8 @@ def coerce(v: V, t: T) -> V:
         return V(t, [z for i in items for z in i.zs])
     if isinstance(t, TRef) and isinstance(v.t, TRef):
         return V(t, v.zs)       # same reference under another static type (dynamic type lives in the type tag)
+    if isinstance(v.t, TOpaque) and v.t.nm == "$empty":
+        return default(t)       # an element of a container known to be empty: never actually exists
     if isinstance(t, TOpaque) and isinstance(v.t, TOpaque) and "$empty" not in (t.nm, v.t.nm):
         # two labels for values of unknown type: an (uninterpreted, equality-preserving) re-labelling
         f = z3.Function(f"relabel_{v.t.nm}_to_{t.nm}".replace(".", "_").replace(":", "_"), zsort(v.t), zsort(t))
